@@ -264,7 +264,7 @@ func runCheck(prop, tier string, ovs []string, only string, writeBaseline, noRep
 			continue
 		}
 		for _, ob := range fr.eng.obls {
-			if ob.Label != "" && propOfLabel(ob.Label) != "" && propOfLabel(ob.Label) != prop {
+			if ob.Label != "" && !fr.fc.counts(ob.Label, prop) {
 				continue // labelled for another property
 			}
 			all = append(all, &OblResult{fr: fr, ob: ob})
@@ -377,7 +377,7 @@ func runCheck(prop, tier string, ovs []string, only string, writeBaseline, noRep
 			continue
 		}
 		for _, ec := range fr.fc.EffectCl {
-			if propOfLabel(ec.Label) != prop {
+			if !fr.fc.counts(ec.Label, prop) || propOfLabel(ec.Label) == "" {
 				continue
 			}
 			if ec.Never {
@@ -392,6 +392,18 @@ func runCheck(prop, tier string, ovs []string, only string, writeBaseline, noRep
 	vacuousEffects := 0
 	for label, n := range effTotal {
 		if n == 0 && effDecided[label] {
+			matchedBefore := false
+			for k := range baseline {
+				if strings.Contains(k, "#effect:"+label+":") && !strings.HasSuffix(k, ":*") {
+					matchedBefore = true
+				}
+			}
+			if matchedBefore && !writeBaseline {
+				// the calls the clause spoke about on the unchanged tree are gone (moved into another function, renamed):
+				// the clause decides nothing about this tree; that is not a defect of the check
+				lines = append(lines, fmt.Sprintf("UNDECIDED effect clause %s: it matched calls on the unchanged tree and matches none now", label))
+				continue
+			}
 			lines = append(lines, fmt.Sprintf("VACUOUS effect clause %s: its pattern matches no call in any function it is attached to", label))
 			vacuousEffects++
 		}
@@ -434,7 +446,7 @@ func runCheck(prop, tier string, ovs []string, only string, writeBaseline, noRep
 				continue
 			}
 			for _, ec := range fr.fc.EffectCl {
-				if ec.History || propOfLabel(ec.Label) != prop {
+				if ec.History || !fr.fc.counts(ec.Label, prop) || propOfLabel(ec.Label) == "" {
 					continue
 				}
 				key := fr.fc.Func + "#effect:" + ec.Label + ":*"
